@@ -2,6 +2,7 @@ package main
 
 import (
 	"fmt"
+	"go/token"
 	"strings"
 
 	"golang.org/x/tools/go/ssa"
@@ -179,6 +180,42 @@ func ackSpec(c *Check, rule string) {
 		},
 		Success: pre[:1],
 	})
+	// every accepted acknowledgement of a packet this chain sent passes through each of the three contract calls exactly
+	// once (status, fee, refund/confirm callback); one for a foreign packet through none
+	f := c.F(fn)
+	fa := c.P.FA(f)
+	for _, method := range []string{"setAckStatus", "sendPacketFeeToRelayer", "OnAcknowledgePacket"} {
+		own := ""
+		isSite := func(cs *CallSite) bool {
+			return strings.HasSuffix(cs.Name, "keeper.(Keeper).CallPacket") && strings.Contains(fa.X.E(cs.Ins.Value()).String(), "\""+method+"\"")
+		}
+		for _, cs := range c.P.CallsIn(f) {
+			if isSite(cs) {
+				for k := range fa.PathCondStrings(cs.Ins.Block()) {
+					if strings.Contains(k, "GetChainName") {
+						own = k
+					}
+				}
+			}
+		}
+		if !c.Req(own != "", rule, "every-own-ack-passes-"+method+"/own-chain test", f.Pos(), own, "no call of "+method+" under a test of the packet's source chain against this chain's name") {
+			continue
+		}
+		good, bad := 0, token.NoPos
+		for _, p := range c.PathCounts(f, isSite) {
+			want := 0
+			if p.Conds[own] {
+				want = 1
+			}
+			if p.Count == want {
+				good++
+			} else {
+				bad = p.Ret.Pos()
+			}
+		}
+		c.Req(bad == token.NoPos && good > 0, rule, "every-own-ack-passes-"+method, f.Pos(), fmt.Sprintf("%d accepting path(s), each with exactly one call when the packet is this chain's", good),
+			"an accepting path of the acknowledgement handler for a packet of this chain does not make exactly one "+method+" call (the step is skipped or repeated on that path)")
+	}
 }
 
 // evmHookRule: structure of CallEVMWithData around the post-transaction hook (shared by C03 and C04).
